@@ -20,7 +20,7 @@ for m in [sc['model']]+(sc.get('models') or []):
     for r in t.get('rel',[]):
         print('   ',r['n'],':',rw(r['rw']),[res(x) for x in r.get('res',[])])
   print('conds',m.get('conds'))
-for t in sc['tuples']: print('  T',t)
+for t in (sc.get('tuples') or []): print('  T',t)
 for r in sc['requests']: print('  R',r)
 for o in sc.get('ops') or []: print('  OP',o)
 print(sc['knobs'])
